@@ -876,6 +876,9 @@ class FlexWindow(Strategy):
             # and maximum charging power.
             avg_power = v.battery.load(self.interval, max_power=power)["avg_power"]
             commands[cs_id] = avg_power
+            if self.LOAD_STRAT == "greedy":
+                # one vehicle after the other: the next one only gets what is left
+                total_power = max(total_power - avg_power, 0)
         return commands
 
     def load_surplus_to_batteries(self):
